@@ -165,7 +165,13 @@ def zoom_badorder_body(ctx, case):
 @st.composite
 def azi_cases(draw):
     n = draw(st.integers(2, 40))
-    kind = draw(st.sampled_from(["const", "dense", "sparse", "dyadic"]))
+    kind = draw(st.sampled_from(["const", "dense", "sparse", "dyadic", "hdr"]))
+    if kind == "hdr":
+        # a very bright core on a faint non-zero background (a saturated PSF)
+        bg = draw(gen.float_array((n, n), kind="dense", lo=0.5, hi=1.5))
+        bg[n // 2, n // 2] = draw(st.sampled_from([1e12, 1e15, 1e18]))
+        bg[(n - 1) // 2, (n - 1) // 2] += draw(st.sampled_from([0.0, 1e16]))
+        return {"data": bg, "kind": kind}
     return {"data": draw(gen.float_array((n, n), kind=kind, lo=-3, hi=3)), "kind": kind}
 
 
@@ -185,7 +191,8 @@ def azi_body(ctx, case):
         c = np.arange(n) + 0.5 - n / 2.0
         d2 = c[None, :] ** 2 + c[:, None] ** 2          # half-integer squares: exact
         want = np.array([data[(d2 > i * i) & (d2 <= (i + 1) ** 2)].mean() for i in range(n // 2)])
-        ctx.close(out, want, 1e-12, "azimuthal average == mean over the ring i < r <= i+1 of pixel centres", scale=max(abs(lo), abs(hi), 1e-300))
+        ctx.require(bool(np.all(np.abs(out - want) <= 1e-12 * np.maximum(np.abs(want), 1e-300) + (0 if case["kind"] == "hdr" else 1e-12 * max(abs(lo), abs(hi))))),
+                    "azimuthal average != mean over the ring i < r <= i+1 of pixel centres: %r vs %r" % (out.tolist()[:6], want.tolist()[:6]))
 
 
 # ------------------------------------------------------------------ encircled energy
